@@ -76,6 +76,11 @@ def runRows (g : CG) (lexs : List (List Nat)) : List (List Item) :=
 def accepting (g : CG) (rows : List (List Item)) : Bool :=
   (rows.getD (rows.length - 1) []).any (fun it => g.atDot it.1 = 0 && it.2 = 0 && g.lhs it.1 = g.start)
 
+/-- the lexemes a row allows: those after the dot of some item (this set selects the lexer's start
+state for the row) -/
+def allowedLexemes (g : CG) (row : List Item) : List Nat :=
+  row.filterMap (fun it => (g.sym (g.atDot it.1)).lexeme)
+
 def subsetB (a b : List Item) : Bool := a.all (fun x => b.contains x)
 
 /-- certificate check on a list of rows (the model's, or any other): row 0 holds the start rules,
